@@ -66,7 +66,7 @@ def iterRun {σ α} (render : Option α → String) (next : σ → Outcome (Opti
         | 'b', some nb => fin (nb it)
         | 'B', some nb => nth nb
         | 'l', _ => (acc.1 ++ [s!"l{remaining it}"], some it)
-        | _, _ => (acc.1 ++ ["?"], some it)
+        | _, _ => (acc.1 ++ ["*"], some it)
     let (out, _) := calls.foldl step ([], some it0)
     " ".intercalate out
 
